@@ -1,3 +1,53 @@
-(* C02 - placeholder (DESIGN.md 7 C02). *)
-From DL Require Import Base Context.
-Example C02_placeholder : True. Proof. exact I. Qed.
+(* C02 - no false rejects; a conforming call runs the body and returns the very value it returned.
+   If one assignment [target] (sizes for names, for expression texts, for positions b[i]) and group lengths
+   [gtarget] satisfy every axis of every queued tensor ([queue_conf]: each tensor passes the standalone check,
+   every axis agrees with [target], every name used inside an expression axis is bound by an earlier dimension in
+   source order or by the scope provider, every *b group has the length [gtarget] gives it), tensor names are
+   distinct, and the initial table is part of the assignment, then the model of DLTypeContext accepts the queue:
+   no DLTypeError and no other exception (not even ZeroDivisionError - a defined value is demanded of every
+   expression axis by [dim_conf]).  For the function wrapper this means the body runs and the caller receives
+   exactly the value the body returned; the body is invoked once by construction of [run_call], with the
+   caller's arguments (the model passes them through untouched).  How arguments are bound (positional, keyword,
+   defaults) is Python's inspect.Signature.bind and is exercised by the correspondence check, not modelled. *)
+From DL Require Import Base Lexer Parser Eval Shape Dtypes Check Context Hints Call CtxSound CtxLift CtxComplete CallComplete.
+
+Theorem C02_no_false_reject : forall target gtarget q c bound,
+  extends (table c) target -> (forall x, In x bound -> mem x (table c) = true) -> gextends (glens c) gtarget ->
+  NoDup (map tensor_arg_name q) -> (forall t, In t q -> existsb (String.eqb (tensor_arg_name t)) (regs c) = false) ->
+  Forall ann_wf q -> queue_conf target gtarget bound q ->
+  exists cF, assert_context c q = DOk cF /\ extends (table cF) target.
+Proof. exact assert_context_complete. Qed.
+
+Theorem C02_transparent : forall w ps args v sc0 qa qr target gtarget,
+  wrapped_wf w ->
+  initial_table (w_provider w) ps = DOk sc0 ->
+  add_args (w_params w) args [] = DOk qa ->
+  match w_ret w with
+  | None => qr = []
+  | Some (it, anns) =>
+      match resolve_types anns with
+      | None => qr = []
+      | Some ra => exists vs, resolve_value it v = Ok vs /\ ctx_add "return" vs (Some ra) [] = DOk qr
+      end
+  end ->
+  extends sc0 target -> NoDup (map tensor_arg_name (qa ++ qr)) ->
+  queue_conf target gtarget (map fst sc0) (qa ++ qr) ->
+  run_call w ps args (BReturn v) = (true, CReturned v).
+Proof. exact run_call_complete. Qed.
+
+(* non-vacuity: a context with a marker absorbing zero axes, a zero-sized axis, a provider name used inside an
+   expression and a one-element tuple is accepted by the model *)
+Definition annE (s:string) : option annot :=
+  match parse_shape s with Ok ty => Some {| a_ty := ty; a_dtypes := []; a_opt := false |} | Err _ => None end.
+Definition arrE (l:list Z) : value := VArr {| x_lib := LNumpy; x_dt := KF32; x_shape := l |}.
+Example conforming_context_accepted :
+  match run_ctx (ctx0 [("k", 2%Z)])
+          [("x", [arrE [0; 3]%Z], Some [annE "a ... b"]);
+           ("y", [arrE [0]%Z; arrE [6]%Z], Some [annE "a*b"; annE "k*b"])] with
+  | DOk c => map fst (table c) = ["k"; "a"; "b"; "a*b"; "k*b"]
+  | _ => False
+  end.
+Proof. vm_compute. reflexivity. Qed.
+
+Redirect "C02.assumptions.1" Print Assumptions C02_no_false_reject.
+Redirect "C02.assumptions.2" Print Assumptions C02_transparent.
